@@ -350,5 +350,77 @@ func genSwagger(repo string) (string, error) {
 		np += len(p.Names)
 	}
 	fmt.Fprintf(&sb, "Definition walk_fields_params : nat := %d.\n", np)
+
+	// ---- buildListRequest: the callback's switch on the scalar field type: per arm the add* calls in its body
+	_, lst, err := gen.ParseFile(filepath.Join(repo, "internal/j5client/list.go"))
+	if err != nil {
+		return "", err
+	}
+	bl := funcDecl(lst, "buildListRequest")
+	if bl == nil {
+		return "", fmt.Errorf("list.go: func buildListRequest not found")
+	}
+	type listArm struct {
+		alt   string
+		calls []string
+	}
+	var larms []listArm
+	enumCalls := []string{}
+	ast.Inspect(bl.Body, func(n ast.Node) bool {
+		ts, ok := n.(*ast.TypeSwitchStmt)
+		if !ok {
+			return true
+		}
+		tag := exprString(ts.Assign)
+		for _, st := range ts.Body.List {
+			cc, ok := st.(*ast.CaseClause)
+			if !ok || len(cc.List) == 0 {
+				continue
+			}
+			tn := typeName(cc.List[0])
+			calls := map[string]bool{}
+			for _, b := range cc.Body {
+				ast.Inspect(b, func(m ast.Node) bool {
+					if _, inner := m.(*ast.TypeSwitchStmt); inner {
+						return false // the nested switch has its own arms
+					}
+					if ce, ok := m.(*ast.CallExpr); ok {
+						if id, ok := ce.Fun.(*ast.Ident); ok && strings.HasPrefix(id.Name, "add") {
+							calls[id.Name] = true
+						}
+						// the enum arm appends to out.FilterableFields itself
+						if id, ok := ce.Fun.(*ast.Ident); ok && id.Name == "append" && len(ce.Args) > 0 && strings.Contains(exprString(ce.Args[0]), "FilterableFields") {
+							calls["addFilter"] = true
+						}
+					}
+					return true
+				})
+			}
+			var cl []string
+			for _, c := range []string{"addFilter", "addSort", "addSearch"} {
+				if calls[c] {
+					cl = append(cl, c)
+				}
+			}
+			switch {
+			case strings.Contains(tag, "Proto.Type"):
+				alt := strings.ToLower(strings.TrimSuffix(strings.TrimPrefix(tn, "Field_"), "_"))
+				larms = append(larms, listArm{alt: alt, calls: cl})
+			case tn == "EnumField":
+				enumCalls = cl
+			}
+		}
+		return true
+	})
+	if len(larms) == 0 {
+		return "", fmt.Errorf("list.go: the switch on st.Proto.Type was not found in buildListRequest")
+	}
+	sb.WriteString("(* internal/j5client/list.go buildListRequest: per arm of the switch on the scalar field type (source order) the add* functions its body calls; the EnumField arm *)\n")
+	var lparts []string
+	for _, a := range larms {
+		lparts = append(lparts, fmt.Sprintf("(%s, %s)", gen.CoqString(a.alt), coqStrList(a.calls)))
+	}
+	fmt.Fprintf(&sb, "Definition list_scalar_arms : list (string * list string) := [%s].\n", strings.Join(lparts, "; "))
+	fmt.Fprintf(&sb, "Definition list_enum_arm : list string := %s.\n", coqStrList(enumCalls))
 	return sb.String(), nil
 }
